@@ -85,6 +85,10 @@ def solve_bin_pack(
     bins: list[tuple[float, list[int]]] = []
     assignments = [0] * n  # assignments[item] = bin_index
 
+    # Allowance for float drift of the running remainders: relative for capacities below 1 (sizes of 2**-40 are not
+    # "about zero"), and compared as a difference so that integer sizes are never converted to float
+    fit_tol = _FIT_TOL * min(1.0, bin_capacity)
+
     for item_idx in indices:
         size = item_sizes[item_idx]
 
@@ -102,13 +106,13 @@ def solve_bin_pack(
             # Find bin with least remaining space that still fits
             best_remaining = float("inf")
             for b, (remaining, _) in enumerate(bins):
-                if size <= remaining + _FIT_TOL and remaining < best_remaining:
+                if size - remaining <= fit_tol and remaining < best_remaining:
                     best_remaining = remaining
                     best_bin = b
         else:
             # First-fit: find first bin that fits
             for b, (remaining, _) in enumerate(bins):
-                if size <= remaining + _FIT_TOL:
+                if size - remaining <= fit_tol:
                     best_bin = b
                     break
 
